@@ -132,6 +132,9 @@ def build(rng, f, ch, n):
 
 def run(ctx):
     if getattr(ctx, "replay", None):
+        from .. import c09twin
+        if c09twin.is_replay(open(ctx.replay).read()):
+            return c09twin.replay(ctx, ctx.replay)
         return ctx.replay_script(ctx.replay)
     quick = ctx.tier == "quick"
     mx, rows, bad = error_table(ctx)
@@ -216,6 +219,10 @@ def run(ctx):
     from .. import c09open
     if c09open.run_failed_opens(ctx):
         found = True
+    # ---- D: twin runs with refused calls of every class, judged on everything observable later (vlib/c09twin.py, Sf.AbsTwin) ----
+    from .. import c09twin
+    if c09twin.run(ctx, quick):
+        found = True
     corr = [x for x in fa if x.kind == "corr"]
     if corr and not found:
         x = corr[0]
@@ -233,6 +240,11 @@ def run(ctx):
                             "compared with the Lean handle model; B: for every writable format a valid write/read history is run twice, once with invalid calls of every class "
                             "(wrong mode, misaligned count, negative count, unknown whence, out-of-range seek, mode-qualified whence) inserted: each must return its failure value with "
                             "a non-zero error and a non-empty message, and every other line, info record and the final file bytes must equal the run without them; "
+                            "D: for every writable format (SFM_WRITE, and SFM_RDWR on a new file) a write history with refused calls of every class interleaved before the metadata, after it, BETWEEN the "
+                            "audio writes (partial codec block pending) and before the close -- seeks behind the end / before the start / bad whence, wrong-mode and misaligned audio calls, over-sized / "
+                            "under-sized / lying / NULL / late metadata setters (bext, cart, cues, instrument, channel map, strings, chunks, PEAK switch, ambisonic), SFC_SET_RAW_START_OFFSET on non-RAW, "
+                            "SFC_FILE_TRUNCATE on SF_VIRTUAL_IO, undefined ids -- against the same history without exactly the calls that were refused: every later call, every metadata getter on the "
+                            "write handle, the BYTES of the closed file and info / metadata / audio of the re-opened file must be equal (Lean predicate Sf.AbsTwin.twinOk decides); "
                             "C: failed opens -- the library's own output of one file per (major, subtype) truncated / with mutated length fields, SD2 with damaged, empty or missing resource forks, "
                             "unknown formats, bad SF_INFO and bad modes for write, each through sf_open / sf_open_fd (close_desc 1 and 0) / sf_open_virtual: NULL, sf_error (NULL) != 0, non-empty message, "
                             "handed-over descriptor closed, heap balance 0, no new descriptor, no temporary file (harness `ledger tryopen`; Lean: SfProps/C16 failed_open_leaves_no_handle)")
